@@ -685,6 +685,300 @@ def catalogue(tables):  # pylint: disable=too-many-locals,too-many-statements
 	return entries
 
 
+# ---------------------------------------------------------------------------------------------------------------------
+# stratified catalogue: within a rule family the seeded sites are stratified by the syntactic KIND of the line the edit applies
+# to, so that an exemption hiding in one kind (e.g. "every #pragma") cannot go unnoticed; every kind present in the tree is covered
+
+def _is_code(lines, i):
+	return i >= 21 and _plain(lines[i]) and lines[i].endswith(';')
+
+
+LINE_KINDS = {
+	'code statement': (None, _is_code),
+	'// comment line': ('// ', lambda lines, i: i >= 21 and bool(re.match(r'^\t*// [A-Za-z][A-Za-z ]*$', lines[i]))),
+	'/// doc comment line': ('/// ', lambda lines, i: i >= 21 and bool(re.match(r'^\t*/// [A-Za-z][A-Za-z ]*\.$', lines[i]))),
+	'line with a string literal': ('"', lambda lines, i: i >= 21 and bool(re.match(r'^\t+[^"#/\\]*"[A-Za-z ]{4,}"[^"/\\]*;$', lines[i]))),
+	'#include line': ('#include', lambda lines, i: bool(re.match(r'^#include ["<][^ ]*[">]$', lines[i]))),
+	'#define line': ('#define', lambda lines, i: bool(re.match(r'^#define \w+ [\w:]+$', lines[i]))),
+	'macro continuation line': ('\\\n', lambda lines, i: i >= 21 and bool(re.match(r'^\t+[^"/#]*[\w;)] \\$', lines[i])) and lines[i - 1].endswith('\\')),
+	'licence header line': (None, lambda lines, i: 1 <= i <= 18 and lines[0] == '/**' and lines[i].startswith('*** ')),
+	'first line of file': (None, lambda lines, i: i == 0 and lines[0] == '/**'),
+	'last line of file': (None, lambda lines, i: i == len(lines) - 2 and lines[-1] == '' and bool(lines[i].strip()) and len(lines) > 30),
+	'blank line': (None, lambda lines, i: 21 <= i < len(lines) - 3 and lines[i] == ''),
+}
+
+
+def _pad(line, width=141):
+	return 'x' * max(1, width - len(line.replace('\t', '    ')))
+
+
+def strata_catalogue(tables, texts):  # pylint: disable=too-many-locals,too-many-statements
+	"""stratum name -> make(rng, path, lines) with attributes .needle (file prefilter) and .informational."""
+	entries = {}
+
+	def add(name, needle, make, informational=False):
+		make.needle = needle
+		make.informational = informational
+		entries[name] = make
+
+	def line_family(family, suite, text, kinds, edit, reports_line=True):
+		for kind in kinds:
+			needle, predicate = LINE_KINDS[kind]
+
+			def make(rng, path, lines, kind=kind, predicate=predicate):
+				candidates = [i for i in range(len(lines)) if predicate(lines, i)]
+				if not candidates:
+					return None
+				i = rng.choice(candidates)
+				new = edit(lines[i], kind, rng)
+				if new is None:
+					return None
+				new = new if isinstance(new, list) else [new]
+				return Edit('', path, lines[:i] + new + lines[i + 1:], suite, text, (i + len(new)) if reports_line else None, f'stratum {kind}')
+			add(f'{family} [{kind}]', needle, make)
+
+	every = [k for k in LINE_KINDS if k != 'blank line']
+
+	def before_backslash(line, kind, extra):
+		return line[:-2] + extra + ' \\' if kind == 'macro continuation line' else line + extra
+
+	line_family('whitespace: trailing space', 'Whitespaces', 'Whitespace at line ending', every, lambda l, k, r: l + ' ')
+	line_family(
+		'whitespace: spaces at beginning of a line', 'Whitespaces', 'Spaces at beginning of a line',
+		[k for k in every if k != 'first line of file'] + ['first line of file'], lambda l, k, r: ' ' + l)
+	line_family('whitespace: tab inside the text', 'Whitespaces', 'Tab present inside the text', every, lambda l, k, r: (
+		re.sub(r'"([A-Za-z])', '"\\1\t', l, count=1) if k == 'line with a string literal' else l + '\t'))
+	line_family('whitespace: carriage return', 'Whitespaces', 'Carriage returns present in file', every + ['blank line'], lambda l, k, r: l + '\r', reports_line=False)
+
+	def double_space(line, kind, _rng):
+		match = re.search(r'(?<=\S) (?=\S)', line[8:] if kind == '#define line' else line)
+		if not match:
+			return None
+		position = match.start() + (8 if kind == '#define line' else 0)
+		return line[:position] + ' ' + line[position:]
+
+	line_family('whitespace: spaces in the middle', 'Whitespaces', 'Spaces in the middle', ['code statement', '#define line', 'macro continuation line'], double_space)
+
+	def drop_space_after_comma(line, _kind, _rng):
+		if re.search(r',[^ ]', line) or not re.search(r', [A-Za-z]', line):
+			return None
+		return re.sub(r', ([A-Za-z])', r',\1', line, count=1)
+
+	line_family('whitespace: comma not followed by a space', 'Whitespaces', 'Comma should be followed by a space', ['code statement', 'macro continuation line'], drop_space_after_comma)
+
+	LINE_KINDS['#define line with parameters'] = ('#define', lambda lines, i: bool(re.match(r'^#define \w+\(\w+, \w+[^"/]*$', lines[i])))
+	line_family('whitespace: comma not followed by a space', 'Whitespaces', 'Comma should be followed by a space', ['#define line with parameters'], drop_space_after_comma)
+
+	line_family('whitespace: tabs in empty line', 'Whitespaces', 'Tabs in empty line', ['blank line'], lambda l, k, r: '\t')
+	LINE_KINDS['blank line after the licence header'] = (None, lambda lines, i: i == 20 and lines[i] == '' and lines[0] == '/**')
+	line_family('whitespace: tabs in empty line', 'Whitespaces', 'Tabs in empty line', ['blank line after the licence header'], lambda l, k, r: '\t')
+
+	def too_long(line, kind, _rng):
+		if kind in ('// comment line', '/// doc comment line', 'licence header line', 'first line of file'):
+			return line + ' ' + _pad(line + ' ')
+		if kind == 'macro continuation line':
+			return line[:-2] + ' /* ' + _pad(line + ' /*  */') + ' */ \\'
+		return line + ' // ' + _pad(line + ' // ')
+
+	line_family('line length', 'LongLines', 'Line too long', every, too_long)
+
+	# typo list: the same words in every kind of position
+	anywhere = [item for item in tables['typo'] if len(item['contexts']) == 9]
+	plain_words = [item for item in anywhere if re.match(r'^[A-Za-z][A-Za-z0-9_]*$', item['witness'])]
+
+	def typo_family(kind, place, words):
+		needle, predicate = LINE_KINDS[kind]
+
+		def make(rng, path, lines):
+			candidates = [i for i in range(len(lines)) if predicate(lines, i)]
+			if not candidates or not words:
+				return None
+			i = rng.choice(candidates)
+			item = rng.choice(words)
+			new = place(lines[i], item['witness'])
+			if new is None:
+				return None
+			return Edit('', path, lines[:i] + [new] + lines[i + 1:], 'Typos', item['id'], i + 1, f'stratum {kind}; pattern {item["pattern"]!r} witness {item["witness"]!r}')
+		add(f'typo list [{kind}]', needle, make)
+
+	typo_family('// comment line', lambda l, w: l + ' ' + w, anywhere)
+	typo_family('/// doc comment line', lambda l, w: l[:-1] + ' ' + w + '.', anywhere)
+	typo_family('code statement', lambda l, w: (re.sub(r'\b([a-z][A-Za-z]{3,})\b', lambda m: m.group(1) + w, l, count=1) if re.search(r'\b[a-z][A-Za-z]{3,}\b', l) else None), plain_words)
+	typo_family('line with a string literal', lambda l, w: re.sub(r'"([A-Za-z])', '"' + w + ' \\1', l, count=1), plain_words)
+	typo_family('#include line', lambda l, w: l + ' // ' + w, anywhere)
+	typo_family('#define line', lambda l, w: l + w, plain_words)
+	typo_family('macro continuation line', lambda l, w: l[:-2] + ' /* ' + w + ' */ \\', plain_words)
+	typo_family('licence header line', lambda l, w: l + ' ' + w, anywhere)
+	typo_family('last line of file', lambda l, w: l + ' // ' + w, anywhere)
+
+	# consecutive blank lines by position
+	def blank_family(kind, predicate):
+		def make(rng, path, lines):
+			candidates = [i for i in range(len(lines)) if predicate(lines, i)]
+			if not candidates:
+				return None
+			i = rng.choice(candidates)
+			return Edit('', path, lines[:i + 1] + [''] + lines[i + 1:], 'Consecutiveempty', 'Consecutive empty lines', i + 2, f'stratum {kind}')
+		add(f'consecutive blank lines [{kind}]', None, make)
+
+	blank_family('blank line after the licence header', LINE_KINDS['blank line after the licence header'][1])
+	blank_family('blank line after #pragma once or the include block', lambda lines, i: 21 <= i < len(lines) - 3 and lines[i] == '' and lines[i - 1].startswith('#'))
+	blank_family('blank line after a backslash-continued macro', lambda lines, i: 22 <= i < len(lines) - 3 and lines[i] == '' and lines[i - 2].endswith('\\') and not lines[i - 1].endswith('\\'))
+	blank_family('blank line inside an indented block', lambda lines, i: 21 <= i < len(lines) - 3 and lines[i] == '' and lines[i + 1].startswith('\t\t'))
+	blank_family('blank line before a namespace-level declaration', lambda lines, i: 21 <= i < len(lines) - 3 and lines[i] == '' and bool(re.match(r'^\t?[A-Za-z/]', lines[i + 1])))
+	blank_family('last blank line of the file', lambda lines, i: lines[i] == '' and i >= 21 and '' not in lines[i + 1:-1] and i < len(lines) - 2)
+
+	# preprocessor indentation: every directive keyword (and every first word after `pragma`) that occurs in the tree
+	kinds = set()
+	for text in texts.values():
+		for match in re.finditer(r'^#[ \t]*(\w+)(?:[ \t]+(\w+))?', text, re.M):
+			kinds.add(('pragma ' + (match.group(2) or '')) if match.group(1) == 'pragma' else match.group(1))
+	known = {'include', 'define', 'undef', 'if', 'ifdef', 'ifndef', 'elif', 'else', 'endif', 'error'}
+
+	def indent_family(kind):
+		pattern = re.compile(r'^#' + re.escape(kind).replace('\\ ', r'[ \t]+') + r'\b')
+
+		def make(rng, path, lines):
+			candidates = [i for i in range(len(lines)) if pattern.match(lines[i])]
+			if not candidates:
+				return None
+			i = rng.choice(candidates)
+			return Edit('', path, lines[:i] + ['\t' + lines[i]] + lines[i + 1:], 'Indentedpreprocessor', 'preprocessor should be aligned to column 0', i + 1, f'stratum #{kind}')
+		add(f'preprocessor indentation [#{kind}]', '#' + kind.split(' ')[0], make)
+
+	for kind in sorted(kinds):
+		if kind in known or kind.startswith('pragma '):
+			indent_family(kind)
+
+	def indent_position(kind, predicate):
+		def make(rng, path, lines):
+			candidates = [i for i in range(len(lines)) if predicate(lines, i)]
+			if not candidates:
+				return None
+			i = rng.choice(candidates)
+			return Edit('', path, lines[:i] + ['\t' + lines[i]] + lines[i + 1:], 'Indentedpreprocessor', 'preprocessor should be aligned to column 0', i + 1, f'stratum {kind}')
+		add(f'preprocessor indentation [{kind}]', '#', make)
+
+	indent_position('directive on the last line of the file', lambda lines, i: i == len(lines) - 2 and lines[-1] == '' and lines[i].startswith('#'))
+	indent_position('first directive of the file', lambda lines, i: lines[i].startswith('#') and lines[i] != '#pragma once' and not any(l.startswith('#') and l != '#pragma once' for l in lines[:i]))
+	indent_position('multi-line #define (first line)', lambda lines, i: bool(re.match(r'^#define .*\\$', lines[i])))
+	indent_position('directive nested inside #if', lambda lines, i: bool(re.match(r'^#(define|include|undef)', lines[i])) and i > 0 and bool(re.match(r'^#(if|ifdef|ifndef|else)', lines[i - 1])))
+
+	def continuation_only(rng, path, lines):
+		candidates = [i for i in range(len(lines) - 1) if re.match(r'^#define .*\\$', lines[i]) and re.match(r'^\t[^\t]', lines[i + 1])]
+		if not candidates:
+			return None
+		i = rng.choice(candidates) + 1
+		return Edit(
+			'', path, lines[:i] + ['\t' + lines[i]] + lines[i + 1:], 'Indentedpreprocessor', 'first continuation must have single indent', i + 1,
+			'stratum: extra tab on the first continuation line of a column-0 multi-line #define')
+	add('preprocessor indentation [first continuation line only] (informational)', '\\\n', continuation_only, informational=True)
+
+	# include order: one stratum per class of the swapped neighbours
+	classes = {
+		'local "x.h"': r'^#include "[^/"]+"$', '"catapult/..."': r'^#include "catapult/', '"tests/..."': r'^#include "tests/', '"src/..."': r'^#include "src/',
+		'"plugins/..."': r'^#include "plugins/', '"<extension>/src/..."': r'^#include "[a-z]+/src/', '<boost/...>': r'^#include <boost/', '<std>': r'^#include <[a-z_]+>$',
+		'<c header .h>': r'^#include <[a-z_/]+\.h>$', '"mongo/..."': r'^#include "mongo/'}
+
+	def order_family(kind, regex):
+		pattern = re.compile(regex)
+
+		def make(rng, path, lines):
+			block = [i for i in range(len(lines)) if re.match(r'^#include ["<]', lines[i])]
+			start = 1 if path.endswith('.cpp') else 0
+			pairs = [a for a, b in zip(block[start:], block[start + 1:]) if b == a + 1 and lines[a] != lines[b] and pattern.match(lines[a]) and pattern.match(lines[b])]
+			if not pairs:
+				return None
+			a = rng.choice(pairs)
+			new = list(lines)
+			new[a], new[a + 1] = new[a + 1], new[a]
+			return Edit('', path, new, 'Includesorder', 'Includes needs fixing', None, f'stratum {kind}')
+		add(f'include order [{kind}]', '#include', make)
+
+	for kind, regex in classes.items():
+		order_family(kind, regex)
+
+	def order_boundary(rng, path, lines):
+		block = [i for i in range(len(lines)) if re.match(r'^#include ["<]', lines[i])]
+		start = 1 if path.endswith('.cpp') else 0
+		pairs = [a for a, b in zip(block[start:], block[start + 1:]) if b == a + 1 and lines[a][9] == '"' and lines[b][9] == '<']
+		if not pairs:
+			return None
+		a = rng.choice(pairs)
+		new = list(lines)
+		new[a], new[a + 1] = new[a + 1], new[a]
+		return Edit('', path, new, 'Includesorder', 'Includes needs fixing', None, 'stratum quoted/angle boundary')
+	add('include order [quoted include after angle include]', '#include', order_boundary)
+
+	# first include / namespace: one stratum per rule set (top directory, src vs tests)
+	def area_of(path):
+		parts = path.split('/')
+		return parts[0] + ('/tests' if 'tests' in parts[1:] or 'test' in parts[1:] else '')
+
+	areas = sorted({area_of(path) for path in texts})
+
+	def first_include_family(area):
+		def make(rng, path, lines):
+			if area_of(path) != area or not path.endswith('.cpp'):
+				return None
+			block = [i for i in range(len(lines)) if re.match(r'^#include ["<]', lines[i])]
+			if len(block) < 2 or block[1] != block[0] + 1 or lines[block[0]] == lines[block[1]]:
+				return None
+			new = list(lines)
+			new[block[0]], new[block[1]] = new[block[1]], new[block[0]]
+			return Edit('', path, new, 'Firstinclude', 'Expected first include to be', None, f'stratum {area}')
+		add(f'first include [{area}]', '#include', make)
+
+	def namespace_family(area):
+		def make(rng, path, lines):
+			if area_of(path) != area or '/int/' in path or '/bench/' in path or path.startswith('tests/int'):
+				return None
+			candidates = [k for k in range(len(lines)) if re.match(r'^namespace catapult { namespace [a-z_]+ {$', lines[k])]
+			if not candidates:
+				return None
+			i = rng.choice(candidates)
+			return Edit('', path, lines[:i] + ['namespace catapult { namespace zzseeded {'] + lines[i + 1:], 'Inconsistent', 'namespace is inconsistent with file location', None, f'stratum {area}')
+		add(f'namespace versus path [{area}]', 'namespace catapult', make)
+
+	for area in areas:
+		first_include_family(area)
+		namespace_family(area)
+
+	# dependency rules: one stratum per --dep-check-dir
+	def dependency_family(kind, path_regex, include_prefix, replacement):
+		def make(rng, path, lines):
+			if not re.match(path_regex, path) or 'tests' in path:
+				return None
+			candidates = [k for k in range(len(lines)) if lines[k].startswith(f'#include "{include_prefix}')]
+			if not candidates:
+				return None
+			i = rng.choice(candidates)
+			return Edit('', path, lines[:i] + [lines[i].replace(include_prefix, replacement, 1)] + lines[i + 1:], 'Dependencies', f'-> {replacement.rstrip("/")}', None, f'stratum {kind}')
+		add(f'dependency rule [{kind}]', '#include "' + include_prefix, make)
+
+	dependency_family('plugins', r'^plugins/txes/[a-z_]+/src/[a-z]+/', 'catapult/', 'tools/health/')
+	dependency_family('extensions', r'^extensions/[a-z]+/src/', 'catapult/', 'tools/health/')
+	dependency_family('src (local single-directory include)', r'^src/catapult/(crypto|utils)/[A-Za-z0-9_]+\.(h|cpp)$', 'catapult/utils/', 'zzseeded/')
+
+	# cross-component includes: one stratum per rule set
+	def cross_family(kind, path_regex, include_regex, replacement):
+		def make(rng, path, lines):
+			match = re.match(path_regex, path)
+			if not match:
+				return None
+			pattern = re.compile(include_regex.format(*[re.escape(g) for g in match.groups()]))
+			candidates = [k for k in range(len(lines)) if pattern.match(lines[k])]
+			if not candidates:
+				return None
+			i = rng.choice(candidates)
+			return Edit('', path, lines[:i] + [pattern.sub(replacement, lines[i], count=1)] + lines[i + 1:], 'Cross_Includes', 'Cross component includes', None, f'stratum {kind}')
+		add(f'cross-component include [{kind}]', '#include "', make)
+
+	cross_family('plugins', r'^plugins/txes/([a-z_]+)/tests/.*\.cpp$', r'^#include "plugins/txes/[a-z_]+/tests/', '#include "plugins/txes/zzseeded/tests/')
+	cross_family('extensions', r'^extensions/([a-z]+)/tests/.*\.cpp$', r'^#include "{0}/tests/', '#include "zzseeded/tests/')
+	return entries
+
+
 def seeded_worker(job):  # pylint: disable=too-many-locals
 	"""Runs one seeded site: scratch tree = exclusion base of the file's top directory + the file; seeded run, undo, clean run."""
 	scratch_root, index, family, path, old_text, new_text, suite, text, lineno, base = job
@@ -744,8 +1038,11 @@ def run(check, unrecognised):  # pylint: disable=too-many-locals,too-many-branch
 		'quote / comment / region tokens and of witness words, deletions, padding to widths around the limit); per-file cases: real files '
 		'(quick 30, thorough all) and compacted, structurally perturbed variants (blank lines, pragma, licence, region markers, CR); '
 		'non-trivial = distinct inputs with a non-empty verdict on either side or a perturbed input. '
-		'(c) seeded sites: random applicable (file, line) per catalogue family, quick 3 / thorough 40 sites per family '
-		'(typo family: every translatable pattern at least once in thorough, 12 random patterns in quick)')
+		'(c) seeded sites: random applicable (file, line) per catalogue family, quick 2 / thorough 40 sites per family '
+		'(typo family: every translatable pattern at least once in thorough, 6 random patterns in quick); every family is additionally STRATIFIED '
+		'by the syntactic kind of the line the edit applies to (code / comment / doc comment / string literal / #include / #define / macro continuation / '
+		'licence header / first and last line; every preprocessor directive keyword and every `#pragma <word>` occurring in the tree; include classes; '
+		'rule set per top directory; blank-line positions), at least one site per stratum present in the tree (quick 1, thorough 8)')
 	if unrecognised.get('LintPatterns'):
 		for key in unrecognised['LintPatterns']:
 			check.broken.append(f'shape:{key}')
@@ -900,32 +1197,38 @@ def run(check, unrecognised):  # pylint: disable=too-many-locals,too-many-branch
 
 		# ---- (c) seeded violations
 		start = time.time()
+		all_contents = {path: (contents[path] if path in contents else (CATAPULT / path).read_text(encoding='utf8')) for path in files}
 		entries = catalogue(tables)
-		per_family = 3 if quick else 40
+		strata = strata_catalogue(tables, all_contents)
+		entries.update(strata)
+		per_family = 2 if quick else 40
 		typo_families = [name for name in entries if name.startswith('typo[')]
-		typo_chosen = set(rng.sample(typo_families, min(12, len(typo_families)))) if quick else set(typo_families)
-		all_contents = {}
-
-		def content(path):
-			if path not in all_contents:
-				all_contents[path] = contents[path] if path in contents else (CATAPULT / path).read_text(encoding='utf8')
-			return all_contents[path]
-
+		typo_chosen = set(rng.sample(typo_families, min(6, len(typo_families)))) if quick else set(typo_families)
+		fixed_typo_families = [name for name in entries if name.startswith('typo (fixed')]
+		fixed_chosen = set(rng.sample(fixed_typo_families, min(6, len(fixed_typo_families)))) if quick else set(fixed_typo_families)
 		base_by_top = {}
 		for path in base:
 			base_by_top.setdefault(path.split('/')[0], []).append(path)
 		jobs = []
 		inapplicable = []
-		candidates = [path for path in files if path not in set(base)]
+		informational = set()
+		excluded = set(base)
+		candidates = [path for path in files if path not in excluded]
 		for name, make in entries.items():
-			if name.startswith('typo[') and name not in typo_chosen:
+			if (name.startswith('typo[') and name not in typo_chosen) or (name.startswith('typo (fixed') and name not in fixed_chosen):
 				continue
-			wanted = (1 if quick else 2) if name.startswith('typo') else per_family
+			stratum = name in strata
+			if getattr(make, 'informational', False):
+				informational.add(name)
+			wanted = (1 if quick else 8) if stratum else ((1 if quick else 2) if name.startswith('typo') else per_family)
+			needle = getattr(make, 'needle', None)
 			found = 0
 			order = list(candidates)
 			rng.shuffle(order)
-			for path in order[:400 if quick else 1500]:
-				text = content(path)
+			for path in (order if stratum else order[:400 if quick else 1500]):
+				text = all_contents[path]
+				if needle and needle not in text:
+					continue
 				lines = text.split('\n')
 				edit = make(rng, path, lines)
 				if edit is None:
@@ -945,6 +1248,7 @@ def run(check, unrecognised):  # pylint: disable=too-many-locals,too-many-branch
 		with multiprocessing.Pool(common.NCPU) as pool:
 			results = pool.map(seeded_worker, [job[:10] for job in jobs], chunksize=1)
 		by_family = {}
+		unreported_informational = []
 		for job, result in zip(jobs, results):
 			family = result['family']
 			stats = by_family.setdefault(family, {'sites': 0, 'reported': 0})
@@ -955,7 +1259,9 @@ def run(check, unrecognised):  # pylint: disable=too-many-locals,too-many-branch
 			replay = {
 				'kind': 'seeded', 'family': family, 'path': result['path'], 'expected_suite': result['suite'], 'expected_text': result['text'],
 				'expected_line': result['lineno'], 'seeded_content': job[5], 'note': job[10], 'how': 'run.py replay <this file>'}
-			if not ok:
+			if not ok and family in informational:
+				unreported_informational.append({'family': family, 'path': result['path'], 'line': result['lineno'], 'note': job[10]})
+			elif not ok:
 				check.fail(
 					'seeded-not-reported:' + _signature(family),
 					f'seeded violation "{family}" in {result["path"]} (line {result["lineno"]}): suite {result["suite"]} does not report '
@@ -973,8 +1279,14 @@ def run(check, unrecognised):  # pylint: disable=too-many-locals,too-many-branch
 					dict(replay, clean_output=result.get('clean_output')))
 		check.sample({'seeded': {k: v for k, v in results[0].items() if k in ('family', 'path', 'suite', 'text', 'lineno', 'status', 'total')}} if results else {})
 		check.extra['seeded'] = {
-			'sites': len(jobs), 'families': len(by_family), 'per_family': by_family, 'families_without_applicable_site': inapplicable,
+			'sites': len(jobs), 'families': len(by_family), 'strata': len(strata), 'per_family': by_family, 'families_without_applicable_site': inapplicable,
+			'informational_strata_unreported': unreported_informational,
 			'seconds': round(time.time() - start, 1)}
+		if unreported_informational:
+			check.notes.append(
+				'informational stratum (not gated, reported to the lead as a candidate finding): an extra tab on the FIRST CONTINUATION line of a column-0 '
+				'multi-line #define is not reported (report_indents checks a continuation only after an indented directive, fix_indents after every '
+				f'directive): {unreported_informational[:3]}')
 		if inapplicable:
 			check.notes.append(f'catalogue families without an applicable site in the searched files: {inapplicable}')
 	finally:
